@@ -313,6 +313,15 @@ func (tree *ObjectTree) Find(scopeIndex uint32, expr []byte) uint32 {
 
 // findRelative attempts to resolve an object using relative scope lookup rules.
 func (tree *ObjectTree) findRelative(scopeIndex uint32, expr []byte) uint32 {
+	// If expr contains a dual or multinamed path then it begins with the
+	// DualNamePrefix (0x2e) or the MultiNamePrefix (0x2f) and a SegCount byte
+	// (the parser extracts the raw data). Skip over them explicitly: a
+	// SegCount byte may have the value of a name character.
+	if len(expr) > 0 && expr[0] == 0x2e {
+		expr = expr[1:]
+	} else if len(expr) > 1 && expr[0] == 0x2f {
+		expr = expr[2:]
+	}
 	exprLen := len(expr)
 
 nextSegment:
